@@ -1,5 +1,5 @@
 """C05: the discrete-Fourier-transform test returns the standard-defined P and Q values (Spectral.tla)."""
-import json, random
+import json, os, random
 import vlib
 from checks import statlib, stattrace
 
@@ -51,6 +51,42 @@ def run(tier):
             iid += 1
             inputs.append({"id": iid, "mode": mode, "n": n, "seed": rng.randrange(1 << 40), "calls": [{"t": "dft"}]})
     stattrace.trace_inputs(run, hz, inputs)
+    # acceptance probe at the upper end of the range (2^26 < n <= 2^27; the 10^8-bit sample size lies here): the call is
+    # started and watched for a few seconds -- a refusal shows at once, the full computation (5 GiB, minutes) is left to the
+    # thorough tier
+    tmpp = vlib.scratch("dftprobe")
+    evp = []
+    for k, n in enumerate([(1 << 26) + 1, 100000000, 1 << 27]):
+        jp = os.path.join(tmpp, "j%d.json" % k); op = os.path.join(tmpp, "o%d.ndjson" % k)
+        with open(jp, "w") as fh:
+            json.dump({"n": n, "mode": "alt", "seed": 1, "t": "dft", "waitMs": 2500}, fh)
+        pp = vlib.run_bin(hz, ["probe", jp, op], timeout=600)
+        if pp.returncode != 0 or not os.path.exists(op):
+            raise vlib.InfraError("hz probe (n=%d) failed: %s" % (n, (pp.stderr or "")[-600:]))
+        evp += vlib.read_ndjson(op)
+    accp, rejp, genp = vlib.validate_trace("TraceRegistry", evp, timeout=600, max_rej=4)
+    run.states += accp; run.transitions += genp; run.traces += accp; run.evaluations += len(evp)
+    run.extra["upper_range_probes"] = [{"n": e["n"], "finished": e["finished"]} for e in evp]
+    for e in rejp:
+        run.violation({"test": "dft", "n": e["n"], "level": "upper-range-probe", "why": (e.get("panic") or "ill-formed result")[:120]}, {"cmd": "probe", "event": e})
+    if thorough:
+        # the upper end of the admissible range (2^26 < n <= 2^27: the 10^8-bit sample size of the batch detector lies here):
+        # the test must return a well-formed result (Registry!ResultOK judged by TLC); about 5 GiB and two minutes per input
+        tmpb = vlib.scratch("dftbig")
+        evb = []
+        for k, n in enumerate([(1 << 26) + 1, 100000000]):
+            jp = os.path.join(tmpb, "j%d.json" % k); op = os.path.join(tmpb, "o%d.ndjson" % k)
+            with open(jp, "w") as fh:
+                json.dump({"inputs": [{"id": 900 + k, "mode": "uni", "n": n, "seed": rng.randrange(1 << 40), "only": "dft"}]}, fh)
+            pb = vlib.run_bin(hz, ["results", jp, op], timeout=3000)
+            if pb.returncode != 0:
+                raise vlib.InfraError("hz results (n=%d) failed: %s" % (n, (pb.stderr or "")[-600:]))
+            evb += vlib.read_ndjson(op)
+        accb, rejb, genb = vlib.validate_trace("TraceRegistry", evb, timeout=600, max_rej=4)
+        run.states += accb; run.transitions += genb; run.traces += accb; run.evaluations += len(evb)
+        run.extra["upper_range_inputs"] = [e["n"] for e in evb]
+        for e in rejb:
+            run.violation({"test": "dft", "n": e["n"], "level": "upper-range", "why": (e.get("panic") or "ill-formed result")[:120]}, {"cmd": "results", "event": e})
     run.rule = ("every bit sequence of 2..10(12) bits; generator sequences at n in 13..257(512) incl. n just above a power of two, periodic and constant modes "
                 "(exact spectrum in the real layer, undecided band 1e-9 around the threshold); periodic words lifted to 2^10..2^20 bits; seeded inputs up to 10^6(2*10^6) bits via an "
                 "independent FFT proxy; non-trivial = 1e-6 < P* < 1-1e-6")
